@@ -31,7 +31,7 @@ for pid in PROPS:
     for rid, r in rules.items():
         if rid.startswith(COUNT_ONLY):
             # per-function rules (purity): how many functions a module is split into is not part of the property
-            r['min'] = max(1, int(r['min'] * (0.3 if rid.endswith('.pure') else 0.8))); r['keys'] = []
+            r['min'] = max(1, int(r['min'] * (0.3 if rid.endswith('.pure') else (0.6 if rid.endswith('.space') else 0.8)))); r['keys'] = []      # .space rules carry their own minimum and required kinds
     out[pid] = {'rules': rules}
 path = os.path.join(os.path.dirname(os.path.dirname(os.path.abspath(__file__))), 'baseline.json')
 json.dump(out, open(path, 'w'), indent=1, sort_keys=True)
